@@ -737,9 +737,38 @@ func (x *Exec) evalSpecCall(st *State, e *ast.CallExpr) *Value {
 		savedSpec := x.spec
 		x.spec = 0
 		x.noSafety++
+		// a spec function whose loop bound is symbolic here cannot be unrolled:
+		// it is then an uninterpreted function of its (value-typed) arguments
+		probe := x.eng.specFns[name] && x.specValueOnly(sig)
+		var snap *State
+		savedSym, savedProbe := x.specSymLoop, x.specProbe
+		if probe {
+			snap = st.clone()
+			x.specSymLoop = false
+			x.specProbe = true
+		}
 		outs := x.inlineFunc(st, fd, callee, nil, args)
+		sym := x.specSymLoop
+		if probe {
+			x.specSymLoop, x.specProbe = savedSym || sym, savedProbe
+		}
 		x.noSafety--
 		x.spec = savedSpec
+		if probe && sym && sig.Results().Len() == 1 {
+			*st = *snap
+			var targs []*Term
+			for _, a := range args {
+				for _, pth := range a.paths() {
+					targs = append(targs, a.L[pth])
+				}
+			}
+			rt := sig.Results().At(0).Type()
+			out := &Value{T: rt, L: map[string]*Term{}}
+			for _, l := range x.leavesOf(rt) {
+				out.L[l.path] = x.b.App(join("uf.spec."+name, l.path), l.sort, targs...)
+			}
+			return out
+		}
 		if len(outs) == 0 {
 			x.fail("spec: function %s returns nothing", name)
 			return x.constInt(0)
@@ -748,6 +777,21 @@ func (x *Exec) evalSpecCall(st *State, e *ast.CallExpr) *Value {
 	}
 	x.fail("spec: unknown function %q", name)
 	return x.constInt(0)
+}
+
+// specValueOnly: every parameter is a basic value or a slice of basic values
+// (the function then depends on nothing but the argument terms).
+func (x *Exec) specValueOnly(sig *types.Signature) bool {
+	for i := 0; i < sig.Params().Len(); i++ {
+		t := sig.Params().At(i).Type().Underlying()
+		if sl, ok := t.(*types.Slice); ok {
+			t = sl.Elem().Underlying()
+		}
+		if _, ok := t.(*types.Basic); !ok {
+			return false
+		}
+	}
+	return true
 }
 
 func (x *Exec) sameHeap(st, o *State, pat string) []*Term {
